@@ -262,6 +262,46 @@ func init() {
 			return IfaceV{T: c.iterT(), V: &IterV{it: s.ids.Iterator()}}
 		},
 		"Apply": applyMethod,
+		"AddScalar": func(c *Ctx, s *Shadow, args []Value, sig *types.Signature) Value {
+			b := c.operandOf(args[0])
+			left := args[1].(*smt.Term)
+			if !left.IsConst() {
+				panic(c.abort("AddScalar: symbolic leftTensor"))
+			}
+			fo := c.funcOpts(args[2])
+			var res *tensor.Dense
+			var err error
+			if p := c.nativeCall("AddScalar", func() { res, err = s.twin.AddScalar(b.native, left.BoolVal(), fo.native...) }); p != nil {
+				panic(p)
+			}
+			if err != nil {
+				return c.retTensorErr(nil, err, sig)
+			}
+			var bt *smt.Term
+			if b.sh != nil {
+				bts := c.logicalTerms(b.sh)
+				if len(bts) != 1 {
+					panic(c.abort("AddScalar accepted a tensor of %d elements as scalar", len(bts)))
+				}
+				bt = bts[0]
+			} else {
+				bt = b.term
+			}
+			so, _ := c.elemSort(s.dt)
+			xs := c.logicalTerms(s)
+			out := make([]*smt.Term, len(xs))
+			for i, x := range xs {
+				if x.Sort != bt.Sort {
+					panic(c.abort("AddScalar: sorts %v and %v but gorgonia accepted", x.Sort, bt.Sort))
+				}
+				if left.BoolVal() {
+					out[i] = c.addTerms(so, x, bt)
+				} else {
+					out[i] = c.addTerms(so, bt, x)
+				}
+			}
+			return c.retTensorErr(c.finishResult(res, fo, s.dt, out), nil, sig)
+		},
 		"Memset": func(c *Ctx, s *Shadow, args []Value, sig *types.Signature) Value {
 			iv, ok := args[0].(IfaceV)
 			if !ok || iv.T == nil {
@@ -432,6 +472,14 @@ func (c *Ctx) tensorNew(dt *tensor.Dtype, opts []Value) *Shadow {
 		sl, ok := iv.V.(SliceV)
 		st, isSlice := iv.T.Underlying().(*types.Slice)
 		if !ok || !isSlice {
+			if bb, isB := iv.T.Underlying().(*types.Basic); isB {
+				// a scalar handed to WithBacking: the real gorgonia decides (it panics: "Expected a slice")
+				if bd, ok := dtypeOfBasic(bb); ok {
+					if p := c.nativeCall("New(WithBacking(scalar))", func() { tensor.New(tensor.WithBacking(benignScalar(bd))) }); p != nil {
+						panic(p)
+					}
+				}
+			}
 			panic(c.abort("WithBacking of %s", typeString(iv.T)))
 		}
 		eb, ok := st.Elem().Underlying().(*types.Basic)
